@@ -17,15 +17,19 @@ package emulator
 //@   assigns s.CPU.RK, s.CPU.PC
 
 // RunUntil: terminates (decreases), steps only while cycles remain and the target has not been reached,
-// and reports whether the program counter equals the target on exit.
+// and reports whether the program counter equals the target on exit. The budget variable is tied to the CPU's
+// running cycle total, so 'fewer than maxCycles consumed' is a statement about real consumption whether or not a
+// Logger is attached (C14: tracing does not perturb the run).
 //@ func (*System).RunUntil
 //@   params s targetPC maxCycles
-//@   property C12
+//@   property C12 C14
 //@   requires maxCycles <= 0xFFFFFFFFFFFFFF00
 //@   ensures ret1 == (uint32(s.CPU.RK)<<16|uint32(s.CPU.PC) == targetPC)
 //@   ensures old(uint32(s.CPU.RK)<<16|uint32(s.CPU.PC)) == targetPC ==> ncalls("(*emulator/cpu65c816.CPU).Step") == 0
 //@   ensures maxCycles == 0 ==> ncalls("(*emulator/cpu65c816.CPU).Step") == 0
 //@   at call:Step:1 assert cycles < maxCycles && uint32(s.CPU.RK)<<16|uint32(s.CPU.PC) != targetPC
+//@   at call:Step:1 assert s.CPU.AllCycles - old(s.CPU.AllCycles) < maxCycles
+//@   loop 1 invariant cycles == s.CPU.AllCycles - old(s.CPU.AllCycles)
 //@   loop 1 invariant old(uint32(s.CPU.RK)<<16|uint32(s.CPU.PC)) == targetPC ==> uint32(s.CPU.RK)<<16|uint32(s.CPU.PC) == targetPC && ncalls("(*emulator/cpu65c816.CPU).Step") == 0
 //@   loop 1 decreases ite(cycles < maxCycles, maxCycles-cycles, 0)
 //@   loop 1 modifies s.CPU, s.CPU.Bus.EA, s.CPU.Bus.Write, oa
